@@ -18,7 +18,7 @@ import (
 
 var c17Profile = &kvh.GenProfile{
 	Weights: map[string]int{
-		"put": 40, "del": 14, "batch": 18, "merge": 6, "reopen": 10, "get": 2, "sync": 1, "stat": 3, "tear": 3,
+		"put": 40, "del": 14, "batch": 18, "merge": 6, "wipe": 2, "reopen": 10, "get": 2, "sync": 1, "stat": 3, "tear": 3,
 	},
 	MaxBatchOps: 10,
 	Big:         true,
